@@ -12,6 +12,13 @@ Direct oracle (real code only): hints related by meaning-preserving rewrites nor
 equal hashes, a single meaning-changing edit never collapses, re-normalising a normal form read back as a
 hint is the identity, and equivalent hints give the same Retort.load/dump outcomes and serve as the same
 predicate.
+Hints that mention type variables (strengthening 5): AdaptixModel/Types/HintVars.lean models get_type_vars /
+get_type_vars_of_parametrized / is_generic / is_bare_generic / is_parametrized over the attributes of the Python
+object representing each spelling (tie: correspondence `generic-info`); direct oracle: equivalent spellings report
+the same type variables to substitute, agree on is_generic / is_bare_generic / acceptance as a predicate when in the
+same subscription state, and -- as the annotation of a field of a generic dataclass / NamedTuple / TypedDict requested
+bare, parametrised or through a non-generic child -- give loaders and dumpers that are created or refused alike and
+agree on generated data.
 """
 
 import collections
@@ -44,7 +51,12 @@ CLAIM = {
         "separates objects and repr() separates literal values (the ordering-key hypothesis is *derived* from them, "
         "distinct_order_keys); bare generics get Any / the bound / the union of constraints (implicit_params). The "
         "model is tied to the code by six correspondences on hints as constructed by typing; load/dump/predicate "
-        "equivalence of equivalent hints is established by the direct oracle only (one known finding)."
+        "equivalence of equivalent hints is established by the direct oracle only (one known finding). The helpers "
+        "behind generic resolution (get_type_vars_of_parametrized, is_generic) are modelled over the attributes of "
+        "the object representing each spelling and proved to depend only on the type variables a hint mentions, not "
+        "on its spelling (type_vars_of_parametrized_spec, type_vars_union_style/optional_def/alias/union_perm/"
+        "union_nest/union_dup, is_generic_subscribed); tied by the generic-info correspondence; that generic models "
+        "whose fields use different spellings get equivalent loaders/dumpers is established by the direct oracle."
     ),
     "note": (
         "Trusted: Lean 4.33 kernel; axioms audited each run (subset of propext, Classical.choice, Quot.sound). The "
@@ -61,7 +73,9 @@ PROPS_FILE = "AdaptixProofs/Props/C15.lean"
 LEAN_TARGETS = ["AdaptixProofs.Props.C15", "drv_c15"]
 RULE = ("a case is a group of hints: a generated hint, 2-6 hints obtained from it by a random sequence of "
         "meaning-preserving rewrites and 1-2 hints obtained by one meaning-changing edit; it is non-trivial when the "
-        "base hint contains a union, a literal or a bare generic")
+        "base hint contains a union, a literal or a bare generic; a generic-helpers / generic-field case is a chain of "
+        "equivalent spellings of a hint with type variables (random rewrites + every union style of the root + all "
+        "aliases flipped), non-trivial when the spellings are represented by objects of different classes")
 ASSUMPTIONS = [
     "IdentKeys: id() separates the classes/TypeVars/NewTypes/special forms a hint mentions and is never 0 — hypothesis of "
     "canonical_form / idempotent_cpython, true of CPython (that the modelled repr() separates literal values is now a theorem, "
@@ -75,6 +89,8 @@ ASSUMPTIONS = [
 TRUSTED = [
     "the harness's description of a typing object (get_origin/get_args/__constraints__/__bound__/__parameters__ and "
     "BUILTIN_ORIGIN_TO_TYPEVARS read from the working tree) is what the normaliser sees",
+    "objFacts (HintVars.lean): what CPython puts into __parameters__ / get_origin / get_args / isinstance(tp, type) of the "
+    "object representing each spelling -- compared with the real objects on every run (generic-info)",
     "Python str comparison is lexicographic by code point; list.sort is stable (modelled by stable insertion sort)",
 ]
 
@@ -437,6 +453,12 @@ class Real:
             return [str(o), id(o)]
         return {"none": pair(None), "any": pair(Any), "union": pair(Union), "literal": pair(Literal),
                 "annotated": pair(Annotated), "tuple": pair(tuple), "type": pair(type), "ellipsis": str(Ellipsis)}
+
+    def genv(self):
+        """what the model of the generic helpers needs to know about the working tree / CPython"""
+        _KEEP_ALIVE.extend(self.table)
+        return {"builtin": sorted(id(o) for o in self.table), "opaque": [id(InitVar)],
+                "tuple_in_table": tuple in self.table, "type_in_table": type in self.table}
 
     # -- canonical structure of a real normal form (same JSON as the driver's encNorm) --
     def canon_origin(self, o):
@@ -1676,6 +1698,411 @@ def _uses_unloadable(r):
 
 
 # ---------------------------------------------------------------------------
+# third observation: equivalent spellings that MENTION TYPE VARIABLES
+#   * as the annotation of a field of a generic model (dataclass / NamedTuple / TypedDict) requested bare,
+#     parametrised and through a non-generic child: GenericResolver substitutes the variables in the field hint
+#     through get_type_vars_of_parametrized / is_generic, which read attributes of the hint OBJECT
+#     (`__parameters__`, its class, its origin) -- and the object differs between spellings of one type
+#     (typing._UnionGenericAlias for Optional/Union, types.UnionType for `X | Y`, typing._GenericAlias for List[T],
+#     types.GenericAlias for list[T]);
+#   * directly at these shared helpers and at predicate creation (create_loc_stack_checker).
+# ---------------------------------------------------------------------------
+
+PLAIN_TVS = ["T", "U", "B"]          # T, U: no bound; B: bound=int
+MODEL_KINDS = ["dataclass", "namedtuple", "typeddict"]
+ACCESS = ["bare", "param", "child"]
+
+
+def TV(n):
+    return {"r": "tv", "n": n}
+
+
+def plant_type_vars(rng, r, tvs):
+    """`r` with 1-3 of its class/Any/NewType leaves replaced by type variables of `tvs` (None if it has no such leaf)"""
+    slots = [p for p in paths(r) if get_at(r, p)["r"] in ("cls", "any", "newtype")]
+    if not slots:
+        return None
+    rng.shuffle(slots)
+    for i, p in enumerate(slots[:rng.choice([1, 1, 2, 3])]):
+        r = set_at(r, p, TV(tvs[0] if i == 0 else rng.choice(tvs)))
+    return r
+
+
+def gen_tv_recipe(rng, tvs, loadable=True):
+    """A hint mentioning type variables; a union at top level most of the time (the property is about unions), members
+    drawn from the ordinary generator (builtin generics in both spellings, user generics, classes, literals, None)."""
+    for _ in range(50):
+        if rng.random() < 0.65:
+            n = rng.choice([1, 1, 2, 2, 3])
+            ms = [gen_recipe(rng, rng.choice([1, 1, 2]), loadable, in_union=True) for _ in range(n)]
+            if rng.random() < 0.2:
+                ms.append(gen_literal(rng))
+            rng.shuffle(ms)
+            style = rng.choice(["Union", "or"])
+            if rng.random() < 0.5 or len(ms) == 1:
+                ms.append({"r": "none", "sp": rng.random() < 0.3})
+                if len(ms) == 2 and rng.random() < 0.4:
+                    style = "optional"
+            r = {"r": "union", "style": style, "ms": ms}
+        else:
+            r = gen_recipe(rng, rng.choice([1, 2, 2, 3]), loadable)
+        r = plant_type_vars(rng, r, tvs)
+        if r is not None:
+            return r
+    raise InfraError("generator: no hint with type variables produced")
+
+
+def flip_all_aliases(r):
+    u = universe()
+    r = with_children(r, [flip_all_aliases(c) for c in children(r)]) if children(r) else dict(r)
+    if (r["r"] == "gen" and u.generics[r["g"]][1] is not None) or r["r"] in ("tuple", "type"):
+        r["alias"] = not r.get("alias")
+    return r
+
+
+def spelling_chain(rng, base, n_random):
+    """base, `n_random` random meaning-preserving rewrites, then a systematic sweep of the spellings of the ROOT: every
+    union style the root admits (Union[...] / X | Y / Optional[X]) and the hint with every typing alias <-> builtin
+    generic spelling flipped."""
+    chain = [["base", base]]
+    cur = base
+    for _ in range(n_random):
+        kind, new = rewrite_somewhere(rng, cur)
+        if new is not None:
+            chain.append([kind, new])
+            cur = new
+    if cur["r"] == "union":
+        styles = ["Union", "or"]
+        if len(cur["ms"]) == 2 and cur["ms"][1]["r"] == "none":
+            styles.append("optional")
+        elif len(cur["ms"]) == 2 and cur["ms"][0]["r"] == "none":
+            chain.append(["optional", dict(cur, ms=[cur["ms"][1], cur["ms"][0]], style="optional")])
+            cur = chain[-1][1]
+            styles.append("optional")
+        for st in styles:
+            if st != cur.get("style", "Union"):
+                cur = dict(cur, style=st)
+                chain.append(["union-style", cur])
+    flipped = flip_all_aliases(cur)
+    if flipped != cur:
+        chain.append(["alias", flipped])
+    return chain
+
+
+def subst_tvs(r, mapping):
+    if r["r"] == "tv" and r["n"] in mapping:
+        return mapping[r["n"]]
+    cs = children(r)
+    return with_children(r, [subst_tvs(c, mapping) for c in cs]) if cs else r
+
+
+def tvs_of_recipe(r):
+    out = []
+    for p in paths(r):
+        n = get_at(r, p)
+        if n["r"] == "tv" and n["n"] not in out:
+            out.append(n["n"])
+    return out
+
+
+def spelling_class(tp):
+    """which Python object represents the hint (the attribute-reading helpers see nothing else)"""
+    if isinstance(tp, types.UnionType):
+        return "pep604-UnionType"
+    if isinstance(tp, types.GenericAlias):
+        return "builtin-GenericAlias"
+    if typing.get_origin(tp) is Union:
+        return "typing-Union"
+    if isinstance(tp, typing._GenericAlias):  # type: ignore[attr-defined]
+        return "typing-GenericAlias"
+    if isinstance(tp, TypeVar):
+        return "TypeVar"
+    return "other"
+
+
+def make_generic_field_case(rng):
+    tvs = ["T"] + ([rng.choice(["U", "B"])] if rng.random() < 0.35 else [])
+    base = gen_tv_recipe(rng, tvs)
+    used = [t for t in PLAIN_TVS if t in tvs_of_recipe(base)]
+    args = {}
+    for t in used:
+        if t == "B":
+            args[t] = C(rng.choice(["int", "bool"]))
+        else:
+            a = gen_recipe(rng, rng.choice([0, 0, 1]), loadable=True)
+            args[t] = a
+    return {"suite": "generic-field", "kind": rng.choice(MODEL_KINDS), "access": rng.choice(ACCESS), "tvs": used,
+            "args": args, "extra": rng.random() < 0.3, "chain": spelling_chain(rng, base, rng.randint(0, 3))}
+
+
+def build_model(kind, name, tvs, field_tp, extra):
+    ann = {"f": field_tp}
+    if extra:
+        ann["k"] = tvs[0]
+
+    def body(ns):
+        ns["__annotations__"] = dict(ann)
+        ns["__module__"] = __name__
+    gen = Generic[tuple(tvs)]
+    if kind == "dataclass":
+        return dataclass(types.new_class(name, (gen,), {}, body))
+    if kind == "namedtuple":
+        return types.new_class(name, (typing.NamedTuple, gen), {}, body)
+    return types.new_class(name, (typing.TypedDict, gen), {}, body)
+
+
+def build_request(kind, cls, access, actual):
+    if access == "bare":
+        return cls, cls
+    par = cls[tuple(actual)] if len(actual) != 1 else cls[actual[0]]
+    if access == "param":
+        return par, cls
+    child = types.new_class(cls.__name__ + "Child", (par,), {}, lambda ns: ns.update({"__module__": __name__}))
+    if kind == "dataclass":
+        child = dataclass(child)
+    return child, child
+
+
+def model_fields(kind, v):
+    if kind == "dataclass":
+        return {f.name: getattr(v, f.name) for f in dataclasses.fields(v)}
+    if kind == "namedtuple":
+        return v._asdict()
+    return dict(v)
+
+
+def model_outcome(kind, fn):
+    try:
+        v = fn()
+    except Exception as e:
+        return ["exc", type(e).__name__], None
+    fields = model_fields(kind, v)
+    return ["ok", {k: vcanon(x) for k, x in fields.items()}], fields
+
+
+def creation_outcome(fn):
+    try:
+        fn()
+    except Exception as e:
+        return ["exc", type(e).__name__]
+    return ["ok"]
+
+
+def eval_generic_field(ctx: Ctx, real: Real, case, rng):
+    """One field hint in several equivalent spellings, each as the annotation of field `f` of its own generic model of
+    one kind; the models are requested the same way. Loader/dumper creation must succeed or fail identically and the
+    loaders/dumpers must agree on the data."""
+    from adaptix import Retort
+    u = universe()
+    self_check_group(dict(case, edits=[]))
+    kind, access, tvs, chain = case["kind"], case["access"], case["tvs"], case["chain"]
+    implicit = {"T": {"r": "any"}, "U": {"r": "any"}, "B": C("int")}
+    mapping = {t: (implicit[t] if access == "bare" else case["args"][t]) for t in tvs}
+    actual = [build(mapping[t]) for t in tvs]
+    tv_objs = [u.tvars[t] for t in tvs]
+    concrete_r = subst_tvs(chain[0][1], mapping)
+    data = case.get("data")
+    if data is None:
+        data = []
+        for _ in range(3):
+            d = {"f": gen_data(rng, concrete_r)}
+            if case["extra"]:
+                d["k"] = gen_data(rng, mapping[tvs[0]])
+            data.append(d)
+        data += [{"f": j, "k": j} for j in rng.sample(JUNK, 2)]
+        data = [d for d in data if _jsonable(d)]
+        case["data"] = data
+    hints = [build(r) for _k, r in chain]
+    classes = [spelling_class(h) for h in hints]
+    in_region = any(c == "pep604-UnionType" and getattr(h, "__parameters__", ()) for c, h in zip(classes, hints))
+    ctx.note_case(case, nontrivial=len(set(classes)) > 1, kind=f"generic-field:{kind}:{access}")
+    for c in classes:
+        ctx.dist[f"generic-field:field-object:{c}"] += 1
+    ctx.dist["generic-field:has-pep604-union-with-typevars" if in_region else "generic-field:no-pep604-union-with-typevars"] += 1
+    ctx.dist[f"generic-field:spelling-classes-in-group:{len(set(classes))}"] += 1
+    rows = []
+    for tp in hints:
+        real._cache.cache_clear()
+        cls = build_model(kind, "GM", tv_objs, tp, case["extra"])
+        req, ctor = build_request(kind, cls, access, actual)
+        retort = Retort()
+        row = {"loader": creation_outcome(lambda: retort.get_loader(req)), "req": req, "ctor": ctor}
+        res = [model_outcome(kind, lambda d=d: retort.load(d, req)) for d in data]
+        row["loads"] = [o for o, _f in res]
+        row["fields"] = [f for o, f in res if o[0] == "ok"]
+        rows.append(row)
+    ok_fields = rows[0]["fields"]
+    for row in rows:
+        real._cache.cache_clear()
+        retort = Retort()
+        req, ctor = row["req"], row["ctor"]
+        row["dumper"] = creation_outcome(lambda: retort.get_dumper(req))
+        row["dumps"] = [outcome(lambda f=f: retort.dump(ctor(**f), req))[0] for f in ok_fields]
+    ctx.dist["generic-field:loader-built" if rows[0]["loader"] == ["ok"] else "generic-field:loader-refused"] += 1
+    ctx.dist[f"generic-field:loads-ok:{sum(1 for o in rows[0]['loads'] if o[0] == 'ok')}"] += 1
+
+    def known(i, getter):
+        for j in (i, i - 1):
+            try:
+                if collapsed_model_union(real, build(subst_tvs(chain[j][1], mapping)), getter):
+                    return True
+            except Exception:
+                pass
+        return False
+
+    where = f"field f of a generic {kind} requested {access}" + ("" if access == "bare" else f" with {actual!r}")
+    for i in range(1, len(rows)):
+        a, b, rw = rows[i - 1], rows[i], chain[i][0]
+        pair = f"`f: {show(hints[i - 1])}` vs `f: {show(hints[i])}`"
+        if a["loader"] != b["loader"]:
+            sig = "retort:collapsed-union-of-model" if known(i, "get_loader") else f"gfield-loader:{rw}"
+            ctx.fail(sig, f"equivalent field hints ({rw}), {where}: loader creation {a['loader']} vs {b['loader']} for {pair}", case)
+        elif a["loads"] != b["loads"]:
+            j = next(k for k in range(len(data)) if a["loads"][k] != b["loads"][k])
+            sig = "retort:collapsed-union-of-model" if known(i, "get_loader") else f"gfield-load:{rw}"
+            ctx.fail(sig, f"equivalent field hints ({rw}), {where}: load({data[j]!r}) = {a['loads'][j]} vs {b['loads'][j]} for {pair}", case)
+        if a["dumper"] != b["dumper"]:
+            sig = "retort:collapsed-union-of-model" if known(i, "get_dumper") else f"gfield-dumper:{rw}"
+            ctx.fail(sig, f"equivalent field hints ({rw}), {where}: dumper creation {a['dumper']} vs {b['dumper']} for {pair}", case)
+        elif a["dumps"] != b["dumps"]:
+            sig = "retort:collapsed-union-of-model" if known(i, "get_dumper") else f"gfield-dump:{rw}"
+            ctx.fail(sig, f"equivalent field hints ({rw}), {where}: dumps {a['dumps']} vs {b['dumps']} for {pair}", case)
+
+
+def suite_generic_fields(ctx: Ctx, real: Real, n: int):
+    for _ in range(n):
+        c = make_generic_field_case(ctx.rng)
+        eval_generic_field(ctx, real, c, ctx.rng)
+        ctx.sample({"suite": "generic-field", "kind": c["kind"], "access": c["access"],
+                    "hints": [show(build(r)) for _k, r in c["chain"]][:3], "data": c.get("data")}, every=53, cap=12)
+    ctx.extra["generic_field_groups"] = ctx.extra.get("generic_field_groups", 0) + n
+
+
+# -- the shared helpers themselves ------------------------------------------------------------------------------
+
+def unwrap_annotated(tp):
+    while typing.get_origin(tp) is Annotated:
+        tp = tp.__origin__
+    return tp
+
+
+def param_state(tp):
+    """`bare` (could still be subscribed: list, List, a user generic class), `type` (the class `type` / typing.Type, which
+    is_generic tells apart on purpose) or `subscribed/plain`. is_generic / is_bare_generic answer a question about this
+    state, so they are only compared between spellings in the same state."""
+    core = unwrap_annotated(tp)
+    if core is type or core is typing.Type:
+        return "type"
+    if typing.get_args(core):
+        return "subscribed"
+    return "unsubscribed"
+
+
+class Helpers:
+    def __init__(self):
+        from adaptix._internal.provider.loc_stack_filtering import create_loc_stack_checker
+        from adaptix._internal.type_tools import get_type_vars, is_bare_generic, is_generic, is_parametrized
+        from adaptix._internal.type_tools.basic_utils import get_type_vars_of_parametrized
+        self.get_type_vars, self.tvp = get_type_vars, get_type_vars_of_parametrized
+        self.is_generic, self.is_bare_generic, self.is_parametrized = is_generic, is_bare_generic, is_parametrized
+        self.create_checker = create_loc_stack_checker
+
+    def facts(self, tp):
+        def names(vs):
+            return [v.__name__ for v in vs]
+        out = {}
+        for name, fn in (("type_vars", lambda: names(self.get_type_vars(tp))), ("tvp", lambda: names(self.tvp(tp))),
+                         ("generic", lambda: bool(self.is_generic(tp))), ("bare", lambda: bool(self.is_bare_generic(tp))),
+                         ("parametrized", lambda: bool(self.is_parametrized(tp)))):
+            try:
+                out[name] = fn()
+            except Exception as e:
+                out[name] = {"raises": type(e).__name__}
+        return out
+
+    def predicate(self, tp):
+        try:
+            self.create_checker(tp)
+        except Exception as e:
+            return "refused:" + type(e).__name__
+        return "accepted"
+
+
+def eval_helper_group(ctx: Ctx, real: Real, helpers: Helpers, case, requests=None, metas=None):
+    """What generic resolution and predicate creation ask about a hint must not depend on how the hint is spelled:
+    the set of type variables to substitute (get_type_vars_of_parametrized, or the hint itself being a TypeVar), and --
+    between spellings in the same subscription state -- is_generic / is_bare_generic and whether the hint is accepted as
+    a predicate."""
+    self_check_group(dict(case, edits=[]))
+    chain = case["chain"]
+    hints = [build(r) for _k, r in chain]
+    classes = [spelling_class(h) for h in hints]
+    ctx.note_case(case, nontrivial=len(set(classes)) > 1, kind="generic-helpers")
+    for c in classes:
+        ctx.dist[f"generic-helpers:object:{c}"] += 1
+    if any(c == "pep604-UnionType" and getattr(h, "__parameters__", ()) for c, h in zip(classes, hints)):
+        ctx.dist["generic-helpers:has-pep604-union-with-typevars"] += 1
+    facts, states, preds, effective = [], [], [], []
+    for h in hints:
+        real._cache.cache_clear()
+        f = helpers.facts(h)
+        facts.append(f)
+        states.append(param_state(h))
+        preds.append(helpers.predicate(h))
+        tvp = f["tvp"] if isinstance(f["tvp"], list) else f["tvp"]
+        effective.append(sorted(set(tvp) | ({h.__name__} if isinstance(h, TypeVar) else set())) if isinstance(tvp, list) else tvp)
+    for i in range(1, len(hints)):
+        rw = chain[i][0]
+        pair = f"{show(hints[i - 1])} vs {show(hints[i])}"
+        if effective[i] != effective[i - 1]:
+            ctx.fail(f"helpers-typevars:{rw}", f"equivalent hints ({rw}) report different type variables to substitute "
+                     f"(get_type_vars_of_parametrized): {effective[i - 1]} vs {effective[i]} for {pair}", case)
+        if states[i] != states[i - 1] or states[i] == "type":
+            ctx.dist["generic-helpers:state-differs-or-type"] += 1
+            continue
+        for key in ("generic", "bare"):
+            if facts[i][key] != facts[i - 1][key]:
+                ctx.fail(f"helpers-is-{key}:{rw}", f"equivalent hints ({rw}) in the same subscription state: is_"
+                         f"{'generic' if key == 'generic' else 'bare_generic'} = {facts[i - 1][key]} vs {facts[i][key]} for {pair}", case)
+        if preds[i] != preds[i - 1]:
+            ctx.fail(f"helpers-predicate:{rw}", f"equivalent hints ({rw}) as predicates: {preds[i - 1]} vs {preds[i]} for {pair}", case)
+    if requests is not None:
+        for h, f in zip(hints, facts):
+            requests.append({"op": "generic_info", "genv": real.genv(), "hint": describe(h, real.table)})
+            metas.append({"case": case, "hint": show(h), "real": f, "ids": {v.__name__: id(v) for v in universe().tvars.values()}})
+
+
+def make_helper_case(rng):
+    if rng.random() < 0.3:      # any hint of the grammar (bare generics, tuple/type forms, hints without variables)
+        base = gen_recipe(rng, rng.choice([0, 1, 2, 3]))
+    else:
+        tvs = rng.sample(list(universe().tvars), rng.choice([1, 1, 2]))
+        base = gen_tv_recipe(rng, tvs, loadable=rng.random() < 0.5)
+    return {"suite": "generic-helpers", "chain": spelling_chain(rng, base, rng.randint(0, 4))}
+
+
+def suite_generic_helpers(ctx: Ctx, real: Real, drv, n: int):
+    helpers = Helpers()
+    requests, metas = ([], []) if drv else (None, None)
+    for _ in range(n):
+        eval_helper_group(ctx, real, helpers, make_helper_case(ctx.rng), requests, metas)
+    if drv:
+        n_ = d_ = 0
+        name_of = {id(v): k for k, v in universe().tvars.items()}
+        for m, rep in zip(metas, drv.batch(requests)):
+            n_ += 1
+            got = rep.get("ok")
+            if isinstance(got, dict):
+                ctx.dist["generic-info:model-object:" + str(got.pop("cls", "?")).split(".")[-1]] += 1
+                got = dict(got, type_vars=[name_of.get(i, i) for i in got.get("type_vars", [])],
+                           tvp=[name_of.get(i, i) for i in got.get("tvp", [])])
+            if got != m["real"]:
+                d_ += 1
+                ctx.disagree("generic-info", {"case": m["case"], "hint": m["hint"]}, m["real"], rep)
+        ctx.suite("generic-info", n_, d_)
+
+
+# ---------------------------------------------------------------------------
 # entry points
 # ---------------------------------------------------------------------------
 
@@ -1763,6 +2190,9 @@ def run(ctx: Ctx):
     suite_groups(ctx, real, drv, n_random=ctx.budget(3000, 60000))
     suite_malformed(ctx, real, drv, n=ctx.budget(200, 3000))
     suite_retort(ctx, real, n=ctx.budget(350, 5000))
+    # new suites last: the random stream of the suites above is unchanged
+    suite_generic_helpers(ctx, real, drv, n=ctx.budget(600, 8000))
+    suite_generic_fields(ctx, real, n=ctx.budget(260, 3000))
     ctx.extra["exhaustive"] = False
     sigs: dict = {}
     for f in ctx.failures:
@@ -1787,6 +2217,16 @@ def search(ctx: Ctx):
                 return
     if not ctx.failures:
         suite_retort(ctx, real, n=300)
+    if not ctx.failures:
+        helpers = Helpers()
+        for d in ctx.disagreements[:300]:
+            c = d["case"].get("case") if isinstance(d["case"], dict) else None
+            if isinstance(c, dict) and c.get("suite") == "generic-helpers":
+                eval_helper_group(ctx, real, helpers, c)
+        if not ctx.failures:
+            suite_generic_helpers(ctx, real, None, n=2000)
+    if not ctx.failures:
+        suite_generic_fields(ctx, real, n=600)
 
 
 def replay(ctx: Ctx, case) -> bool:
@@ -1797,6 +2237,10 @@ def replay(ctx: Ctx, case) -> bool:
         eval_group(ctx, real, case)
     elif case.get("suite") == "retort":
         eval_retort_group(ctx, real, case, random.Random(0))
+    elif case.get("suite") == "generic-field":
+        eval_generic_field(ctx, real, case, random.Random(0))
+    elif case.get("suite") == "generic-helpers":
+        eval_helper_group(ctx, real, Helpers(), case)
     else:
         return False
     return len(ctx.failures) > before
